@@ -901,6 +901,8 @@ class Interp(Engine):
             raise Unsupported("inline depth exceeded at %s" % fi)
         env = self.bind_params(st, fi, args, kwargs, contract, node)
         fr = Frame(fi, env, fi.module, contract)
+        if hasattr(self, "touched"):
+            self.touched.setdefault(fi.key, self.fe.source_hash(fi))
         st.frames.append(fr)
         self.inline_depth += 1
         try:
